@@ -766,7 +766,7 @@ class Doer(tyming.Tymee):
         except GeneratorExit:  # close context, forced exit due to .close on generator
             self.cease()
 
-        except Exception as ex:  # abort context, forced exit due to uncaught exception
+        except (Exception, KeyboardInterrupt) as ex:  # abort context, forced exit due to uncaught exception or SIGINT
             self.abort(ex=ex)
             raise
 
@@ -1199,7 +1199,7 @@ class DoDoer(Doer):
         except GeneratorExit:  # cease context, forced exit due to generator.close()
             self.cease()
 
-        except Exception as ex:  # abort context, forced exit due to uncaught exception
+        except (Exception, KeyboardInterrupt) as ex:  # abort context, forced exit due to uncaught exception or SIGINT
             self.abort(ex=ex)
             raise
 
